@@ -790,3 +790,125 @@ Proof.
     rewrite A2, fm_get_app, A1, fm_get_app, Habs_a. cbn. rewrite beq_refl. reflexivity.
   - subst st1. rewrite A2, fm_get_app, Habs_a. eapply fm_get_news_other; eassumption.
 Qed.
+
+(** * 5. The environment phase: [add_env] *)
+
+Definition env_step (c : cmd) (rst : res ps) (a : arg) : res ps :=
+  do st <- rst;
+  if mt_contains (mt st) (a_id a) then ROk st
+  else match a_env a with
+       | Some v => do x <- react c None SEnv a [v] None st; ROk (fst x)
+       | None => ROk st
+       end.
+
+Lemma add_env_unfold c st : add_env c st = fold_left (env_step c) (c_args c) (ROk st).
+Proof. reflexivity. Qed.
+
+Lemma env_fold_err c l e st : fold_left (env_step c) l (RErr e st) = RErr e st.
+Proof. induction l; [reflexivity|exact IHl]. Qed.
+Lemma env_fold_panic c l x : fold_left (env_step c) l (RPanic x) = RPanic x.
+Proof. induction l; [reflexivity|exact IHl]. Qed.
+
+(** one step: either nothing happens (the argument has an entry, or its variable is unset), or
+    the variable's value is stored for an argument that had no entry *)
+Lemma env_step_spec c a st st1 :
+  mt_pending (mt st) = None -> env_step c (ROk st) a = ROk st1 ->
+  (st1 = st /\ (fm_get (a_id a) (mt_args (mt st)) <> None \/ a_env a = None))
+  \/ (exists v vs, fm_get (a_id a) (mt_args (mt st)) = None /\ a_env a = Some v
+        /\ delimit c a [v] None = Some vs /\ vs <> [] /\ stored c a SEnv vs (mt st) (mt st1)).
+Proof.
+  intros Hp H. unfold env_step in H. cbn [rbind] in H. unfold mt_contains, fm_contains in H.
+  destruct (fm_get (a_id a) (mt_args (mt st))) as [e|] eqn:Eg; cbn [is_some] in H.
+  - inversion H; subst. left. split; [reflexivity|left; discriminate].
+  - destruct (a_env a) as [v|] eqn:Ee.
+    + right. rewrite (react_no_pending _ _ _ _ _ _ _ Hp) in H.
+      destruct (react_core c None SEnv a [v] None st) as [[st2 pr]| |] eqn:Er; [|discriminate|discriminate].
+      cbn [rbind fst] in H. inversion H; subst st2.
+      apply react_core_noncmd in Er; [|discriminate|discriminate|exact Eg].
+      destruct Er as [vs [Hd [Hvs Hst]]]. exists v, vs.
+      split; [reflexivity|]. split; [reflexivity|]. split; [exact Hd|]. split; [exact Hvs|exact Hst].
+    + inversion H; subst. left. split; [reflexivity|right; reflexivity].
+Qed.
+
+(** The environment phase as a whole.  [j] ranges over ids that are not group ids (every
+    argument id of a valid command). *)
+Lemma add_env_fold_spec c : forall l st st',
+  mt_pending (mt st) = None -> fold_left (env_step c) l (ROk st) = ROk st' ->
+  mt_pending (mt st') = None /\ mt_sub (mt st') = mt_sub (mt st)
+  (* entries present before the phase are untouched *)
+  /\ (forall j m, find_group c j = None -> fm_get j (mt_args (mt st)) = Some m ->
+        fm_get j (mt_args (mt st')) = Some m)
+  (* an entry created by the phase is labelled EnvVariable and holds exactly the variable's value
+     (delimited) of an argument of that id that had no entry *)
+  /\ (forall j m', find_group c j = None -> fm_get j (mt_args (mt st)) = None ->
+        fm_get j (mt_args (mt st')) = Some m' ->
+        m_source m' = Some SEnv /\ m_is_group m' = false
+        /\ exists a v vs, In a l /\ a_id a = j /\ a_env a = Some v
+                          /\ delimit c a [v] None = Some vs /\ vs <> [] /\ m_raw m' = [vs])
+  (* every argument whose variable is set has an entry afterwards *)
+  /\ (forall a v, In a l -> a_env a = Some v -> find_group c (a_id a) = None ->
+        fm_get (a_id a) (mt_args (mt st')) <> None)
+  (* an argument without entry and without a set variable still has no entry *)
+  /\ (forall j, find_group c j = None -> fm_get j (mt_args (mt st)) = None ->
+        (forall a, In a l -> a_id a = j -> a_env a = None) ->
+        fm_get j (mt_args (mt st')) = None).
+Proof.
+  induction l as [|a t IH]; intros st st' Hp H.
+  - cbn in H. inversion H; subst. split; [exact Hp|]. split; [reflexivity|]. split; [intros j m _ G; exact G|].
+    split; [intros j m' _ G G'; congruence|]. split; [intros a v []|]. intros j _ G _. exact G.
+  - cbn [fold_left] in H.
+    destruct (env_step c (ROk st) a) as [st1|e s1|x] eqn:E1;
+      [|rewrite env_fold_err in H; discriminate|rewrite env_fold_panic in H; discriminate].
+    destruct (env_step_spec c a st st1 Hp E1) as [[-> Hskip] | [v [vs [Eg [Ee [Hd [Hvs Hst]]]]]]].
+    + destruct (IH st st' Hp H) as [P [S [K [N [Ex Ab]]]]].
+      split; [exact P|]. split; [exact S|]. split; [exact K|]. split; [|split].
+      * intros j m' Hg G G'. destruct (N j m' Hg G G') as [Hs [Hig [a0 [v0 [vs0 [Hin R]]]]]].
+        split; [exact Hs|]. split; [exact Hig|]. exists a0, v0, vs0. split; [right; exact Hin|exact R].
+      * intros a0 v0 [<-|Hin] He Hg.
+        -- destruct Hskip as [Hc|Hn]; [|congruence].
+           destruct (fm_get (a_id a) (mt_args (mt st))) as [m|] eqn:Eg; [|contradiction].
+           rewrite (K _ m Hg Eg). discriminate.
+        -- apply (Ex a0 v0 Hin He Hg).
+      * intros j Hg G Hall. apply Ab; [exact Hg|exact G|]. intros a0 Hin. apply Hall. right. exact Hin.
+    + destruct Hst as [[e1 [G1 S1]] [Hfresh [Hframe [P1 [Sub1 _]]]]].
+      assert (Hp1 : mt_pending (mt st1) = None) by congruence.
+      destruct (IH st1 st' Hp1 H) as [P [S [K [N [Ex Ab]]]]].
+      assert (Hother : forall j, find_group c j = None -> beq (a_id a) j = false ->
+                fm_get j (mt_args (mt st1)) = fm_get j (mt_args (mt st))).
+      { intros j Hg Hj. apply Hframe; [exact Hj|]. intros _. exact Hg. }
+      split; [exact P|]. split; [congruence|]. split; [|split; [|split]].
+      * intros j m Hg G. apply K; [exact Hg|]. rewrite Hother; [exact G|exact Hg|].
+        destruct (beq (a_id a) j) eqn:Ej; [|reflexivity]. apply beq_eq in Ej. subst j. congruence.
+      * intros j m' Hg G G'. destruct (beq (a_id a) j) eqn:Ej.
+        -- apply beq_eq in Ej. subst j.
+           destruct (Hfresh (or_introl Hg)) as [e [Ge [Se [Re Ie]]]].
+           rewrite (K _ e Hg Ge) in G'. inversion G'; subst m'.
+           split; [exact Se|]. split; [exact Ie|]. exists a, v, vs.
+           split; [left; reflexivity|]. split; [reflexivity|]. split; [exact Ee|]. split; [exact Hd|]. split; [exact Hvs|exact Re].
+        -- assert (G1' : fm_get j (mt_args (mt st1)) = None) by (rewrite Hother; assumption).
+           destruct (N j m' Hg G1' G') as [Hs [Hig [a0 [v0 [vs0 [Hin R]]]]]].
+           split; [exact Hs|]. split; [exact Hig|]. exists a0, v0, vs0. split; [right; exact Hin|exact R].
+      * intros a0 v0 [<-|Hin] He Hg.
+        -- rewrite (K _ e1 Hg G1). discriminate.
+        -- apply (Ex a0 v0 Hin He Hg).
+      * intros j Hg G Hall. destruct (beq (a_id a) j) eqn:Ej.
+        -- apply beq_eq in Ej. subst j. rewrite (Hall a (or_introl eq_refl) eq_refl) in Ee. discriminate.
+        -- apply Ab; [exact Hg|rewrite Hother; assumption|]. intros a0 Hin. apply Hall. right. exact Hin.
+Qed.
+
+Theorem add_env_frame c st st' :
+  mt_pending (mt st) = None -> add_env c st = ROk st' ->
+  mt_pending (mt st') = None /\ mt_sub (mt st') = mt_sub (mt st)
+  /\ (forall j m, find_group c j = None -> fm_get j (mt_args (mt st)) = Some m ->
+        fm_get j (mt_args (mt st')) = Some m)
+  /\ (forall j m', find_group c j = None -> fm_get j (mt_args (mt st)) = None ->
+        fm_get j (mt_args (mt st')) = Some m' ->
+        m_source m' = Some SEnv /\ m_is_group m' = false
+        /\ exists a v vs, In a (c_args c) /\ a_id a = j /\ a_env a = Some v
+                          /\ delimit c a [v] None = Some vs /\ vs <> [] /\ m_raw m' = [vs])
+  /\ (forall a v, In a (c_args c) -> a_env a = Some v -> find_group c (a_id a) = None ->
+        fm_get (a_id a) (mt_args (mt st')) <> None)
+  /\ (forall j, find_group c j = None -> fm_get j (mt_args (mt st)) = None ->
+        (forall a, In a (c_args c) -> a_id a = j -> a_env a = None) ->
+        fm_get j (mt_args (mt st')) = None).
+Proof. intros Hp H. rewrite add_env_unfold in H. exact (add_env_fold_spec c _ _ _ Hp H). Qed.
